@@ -138,7 +138,7 @@ class C15(Prop):
         "wuss2ct_accepts_iff", "wuss2ct_involution", "wuss2ct_pairs_matched", "wuss2ct_of_labels", "ct2wuss_nested_labels", "nested_roundtrip", "nested_roundtrip_total", "simple_nested_roundtrip_total", "removeBroken_nested", "repaired_then_compacted_balanced",
         "wuss2ct_nopk_nested", "nopk_wuss_roundtrip", "nopk_repaired_then_compacted", "wuss_ct_wuss_ct",
         "removeBroken_keeps_exactly", "removeBroken_rejects_unbalanced",
-        "ct2wuss_shape", "wussReverse_involutive")]
+        "ct2wuss_shape", "wussFull_nopk", "wussReverse_involutive")]
     claimed = True
     technique = ("Lean 4 proof about an executable hand model of esl_msa.c / esl_wuss.c (in-place compaction loop = filter-by-mask on every aligned field, well-formedness invariants, "
                  "tag-table rebuild of SequenceSubset, mode-conversion and reverse-complement identities over alphabet tables regenerated from the tree, 27-stack WUSS reader = 27 Dyck recognisers, "
